@@ -86,7 +86,8 @@ def gen_random_loop(rng, cid):
     if rng.random() < 0.35:
         for _ in range(rng.randint(1, 2)):
             later.append(rng.choice([[], ["quit"], ["q %d" % next(fresh)], ["r %d" % next(fresh), "quit"]]))
-    return looplib.mkcase(cid, "loop", schedlib.random_source(rng, pspur=0), prefix=prefix, threads=threads, scripts=scripts,
+    src = schedlib.random_source(rng, pspur=0) + (" post=%d" % POST_WRITE if rng.random() < 0.4 else "")
+    return looplib.mkcase(cid, "loop", src, prefix=prefix, threads=threads, scripts=scripts,
                           poller=rng.choice(["epoll", "poll"]), pts=rng.choice([1, 1, 1, 0]), tag="random", later=later)
 
 
@@ -132,6 +133,7 @@ def pool_cases(rng, tier):
 
 
 BIG = 1 << 31
+POST_WRITE = schedlib.mask("write")     # scheduler: park after every (interposed) write
 
 
 def big_pool_cases(which="wrap31"):
@@ -162,6 +164,7 @@ def run(chk, replay=None):
     tier, rng = chk.tier, chk.rng
     pr = chk.prove()
     has_f3_coq = looplib.gen_fact(pr["log"], 503)     # computed inside Coq from the generated reset mode
+    late_coq = looplib.gen_fact(pr["log"], 505)       # quit() wakes before it stores (C05_quit_order_current_tree: refutation branch)
     model_loop = vlib.build_model("C04")
     model_elt = vlib.build_model(PROP)
     impl = looplib.build_impl()
@@ -194,6 +197,11 @@ def run(chk, replay=None):
         for (name, prefix, later, threads, scripts) in loop_configs(tier):
             for poller in ("epoll", "poll"):
                 cfgs.append((name + "_" + poller, dict(kind="loop", prefix=prefix, later=later, threads=threads, scripts=scripts, poller=poller)))
+            # the same with a schedule point AFTER every write as well (post=<mask>): a thread can then be preempted between
+            # its wake-up write and what it does next (e.g. a store of quit_ that comes after the wake-up)
+            if threads:
+                cfgs.append((name + "_postwrite", dict(kind="loop", prefix=prefix, later=later, threads=threads, scripts=scripts,
+                                                       poller="epoll", post=POST_WRITE)))
         for (name, acts, scripts) in elt_configs(tier):
             cfgs.append(("elt_" + name, dict(kind="elt", prefix=["start"] + acts + ["destroy"], scripts=scripts, poller="epoll")))
         enums = {name: schedlib.Enumerator(bound, per_cfg) for (name, _) in cfgs}
@@ -210,7 +218,9 @@ def run(chk, replay=None):
                     counter += 1
                     kw2 = dict(kw)
                     kind = kw2.pop("kind")
-                    cs.append(looplib.mkcase("%s_%d" % (name, counter), kind, schedlib.list_source(p), tag="systematic", **kw2))
+                    post = kw2.pop("post", 0)
+                    cs.append(looplib.mkcase("%s_%d" % (name, counter), kind,
+                                             schedlib.list_source(p) + (" post=%d" % post if post else ""), tag="systematic", **kw2))
                 cases += cs
                 owners.append((e, b, cs))
             runs = RL.run_impl(cases)
@@ -354,6 +364,11 @@ def run(chk, replay=None):
                        "~EventLoopThread / ~EventLoopThreadPool join without hanging and without touching a destroyed loop; round-robin / "
                        "hash / empty pool (apart from recorded findings)", not plain_bad)
     chk.add_obligation("generated reset mode and implementation agree on the quit-before-loop case (F-3 present in both or in neither)", agree)
+    late_impl = any("QUIT LOST" in m and "quit_=1" in m for (_, _, m) in plain_bad)
+    chk.cov["generated_quit_order"] = {"quit() wakes before it stores (computed in Coq from Gen_C04.quit_stores_before_wakeup)": late_coq,
+                                       "a completed quit() left the loop blocked in poll with quit_ set (implementation)": late_impl}
+    chk.add_obligation("generated order of the two halves of quit() is store-then-wake-up (C05_quit_order_current_tree takes its theorem branch)",
+                       late_coq is not True)
     chk.trusted("extraction: ExtrOcamlBasic only; extract/util.ml + extract/C04_driver.ml + extract/C05_driver.ml (map trace lines to model labels)",
                 "harness/sched.cc (cooperative scheduler; -Wl,--wrap interposition of pthread_mutex_*/cond_*/create/join and "
                 "read/write/poll/epoll_wait), harness/C04_driver.cc (#define private public for observers; __cyg_profile_func_enter/"
